@@ -1,4 +1,64 @@
-(* Properties/C15.v — statements follow *)
-From GN Require Import Common.Base Model.Paths Model.Require Spec.NodeResolve.
-Theorem C15_placeholder : True. Proof. exact I. Qed.
-Print Assumptions C15_placeholder.
+(* Properties/C15.v — native/core names resolve by registration only, stably; 'node:' means core. *)
+From GN Require Import Common.Base Model.Paths Model.Require Proofs.RequireInv Proofs.RequireExtra.
+Open Scope Z_scope.
+
+(* In every state reachable by any history of requires — prefixed, unprefixed and file requests, including a relative
+   file whose resolved path equals a module name — every cached bare or node: name holds the implementation that the
+   registrations alone prescribe (registry native, else global native, else core; node:X = core X). *)
+Theorem C15_registration_only : forall fs nr fuel calls,
+  wf_natives nr -> NInv nr (run_tops fs nr fuel init_state calls).
+Proof. exact reachable_ninv. Qed.
+Print Assumptions C15_registration_only.
+
+(* a first lookup creates exactly the prescribed implementation, or fails with 'No such built-in module' for a node: name
+   that is not core, or is not a native name at all *)
+Theorem C15_first_lookup : forall nr st name,
+  cache_get (native_cache st) name = None ->
+  match native_choice nr name, snd (load_native nr st name) with
+  | inl (Some nk), ROk m => native_owner (fst (load_native nr st name)) m = Some nk
+  | inl None, RErr 3 => True
+  | inr _, RNone => True
+  | _, _ => False
+  end.
+Proof. exact load_native_by_registration. Qed.
+Print Assumptions C15_first_lookup.
+
+(* repeated calls return the identical object and no loader runs again *)
+Theorem C15_same_object : forall nr st name m,
+  cache_get (native_cache st) name = Some m -> load_native nr st name = (st, ROk m).
+Proof. exact load_native_cached. Qed.
+Print Assumptions C15_same_object.
+
+(* require('X') and require('node:X') are the identical object for a core module X that is not overridden *)
+Theorem C15_node_prefix_alias : forall name,
+  let nr := {| n_registry := []; n_global := []; n_core := [name] |} in
+  has_prefix node_prefix name = false ->
+  forall st, cache_get (native_cache st) name = None ->
+  let st1 := fst (load_native nr st name) in
+  cache_get (native_cache st1) (node_prefix ++ name) = cache_get (native_cache st1) name.
+Proof.
+  intros name nr Hp st Hc st1. unfold st1, load_native. rewrite Hc. unfold nr. cbn [n_registry n_global n_core].
+  assert (Hm : mem_zs name [name] = true) by (cbn [mem_zs]; rewrite zs_eqb_refl; reflexivity).
+  change (mem_zs name []) with false. cbn iota. rewrite Hm. cbn iota.
+  destruct (new_module st (ONative name NCore)) as [s1 m]. cbn [fst native_cache with_native]. rewrite Hp.
+  rewrite !RequireInv.get_set. rewrite !zs_eqb_refl.
+  destruct (zs_eqb name (node_prefix ++ name)); reflexivity.
+Qed.
+Print Assumptions C15_node_prefix_alias.
+
+Example C15_nonvacuous :
+  let util := [117;116;105;108] in
+  let nr := {| n_registry := [util]; n_global := []; n_core := [util] |} in
+  let fs := [(util ++ [46;106;115], FJs [IBump])] in                      (* "util.js" next to scripts with relative names *)
+  let dot := parse [46] in
+  let st := run_tops fs nr 5 init_state [(dot, [46;47] ++ util); (dot, node_prefix ++ util); (dot, util)] in
+  wf_natives nr /\ NInv nr st /\
+  option_map (native_owner st) (cache_get (native_cache st) util) = Some (Some (util, NRegistry)) /\
+  option_map (native_owner st) (cache_get (native_cache st) (node_prefix ++ util)) = Some (Some (util, NCore)).
+Proof.
+  cbv zeta. assert (W : wf_natives {| n_registry := [[117;116;105;108]]; n_global := []; n_core := [[117;116;105;108]] |}).
+  { split.
+    - intros n [H|H]; cbn in H; [|discriminate]. rewrite orb_false_r in H. apply zs_eqb_eq in H. subst. reflexivity.
+    - intros c H _. cbn in H. rewrite orb_false_r in H. apply zs_eqb_eq in H. subst. reflexivity. }
+  split; [exact W|]. split; [apply reachable_ninv; exact W|]. split; vm_compute; reflexivity.
+Qed.
